@@ -82,11 +82,11 @@ OriginForm(target) ==
                p == FirstPos(rest, "/")
            IN  IF p = 0 THEN T_slash ELSE Drop(rest, p - 1)
       ELSE target
-\* the path of a request target: up to the first "?"
+\* the path of a request target: up to the first "?"; an authority-form target (CONNECT host:port) has no path
 PathOf(target) ==
     LET o == OriginForm(target)
         q == FirstPos(o, "?")
-    IN  IF q = 0 THEN o ELSE SubSeq(o, 1, q - 1)
+    IN  IF o = << >> \/ o[1] # "/" THEN << >> ELSE IF q = 0 THEN o ELSE SubSeq(o, 1, q - 1)
 HasQuery(target) == FirstPos(OriginForm(target), "?") # 0
 
 --------------------------------------------------------------------------
